@@ -545,3 +545,7 @@ def run(ctx, led):
     run_rule(led, "F7", "DIV-GUARD: a non-constant scale of an affine view is guarded by ≠ 0 (branch "
              "or upstream filter)", f7, ctx)
     run_rule(led, "F8", "argument wiring of the generic compile helpers, 1-based element index, xor CNF", f8, ctx)
+    from . import fznrules
+    run_rule(led, "F9", "Domain::merge is the intersection of the two domains (decided per variant pair on a small window)", fznrules.merge_is_intersection, ctx)
+    run_rule(led, "F10", "the clauses posted for set_in_reif over an interval mean r ⇔ lb ≤ x ≤ ub (decided on a small window)", fznrules.set_in_reif_clauses, ctx)
+    run_rule(led, "F11", "ZIP-ALIGNMENT: nothing is selected from one side before two parallel sequences are zipped", fznrules.zip_alignment, ctx)
